@@ -1030,6 +1030,12 @@ class NetlistEmitter:
 
     def emit_assign(self, module_idx: int, cd: "_cd.ClockDomain | None", lhs: _ast.Value, lhs_start: int, rhs: _nir.Value, cond: _nir.Net, *, src_loc):
         # Assign rhs to lhs[lhs_start:lhs_start+len(rhs)]
+        # Bits that fall outside of `lhs` itself (e.g. beyond the window of a part select or of
+        # a narrow array element that is being sliced) are dropped, as they are in simulation.
+        if lhs_start >= len(lhs):
+            return
+        if lhs_start + len(rhs) > len(lhs):
+            rhs = _nir.Value(rhs[:len(lhs) - lhs_start])
         if isinstance(lhs, _ast.Signal):
             sig_drivers = self.drivers.setdefault(lhs, {})
             key = (module_idx, cd)
